@@ -130,9 +130,25 @@ Definition sin_thm_dom (c : scase) : bool :=
 (* Known limit of the model: ImmutableSet.__set__ hands the CONVERTED frozenset to Set.__set__, which
    validates its size a second time; [vset] checks the size of the supplied set only.  The two can
    differ only where the [stable] clause fails, and only in the direction "typedpy rejects what the
-   model accepts" (the safe one for C01).  Such steps are counted, not compared. *)
+   model accepts" (the safe one for C01).  Such steps are counted, not compared.
+   The [stable] clause is looked at on its own (whether or not the other arguments are in the statement's
+   domain: a bool offered to a numeric option next to such a set must not turn the step into a mismatch). *)
+Definition arg_stable (c : scase) (cd : classdef) (p : pystr * pyval) : bool :=
+  match find_field (c_fields cd) (fst p) with
+  | Some fd => stable (sre c) (sc_env c) (fd_field fd) (snd p)
+  | None => true
+  end.
+
+Definition plan_stable (c : scase) (pl : plan) : bool :=
+  match pl with
+  | PConstruct cd kw =>
+      forallb (arg_stable c cd) kw &&
+      forallb (fun fd => match fd_default fd with Some d => arg_stable c cd (fd_name fd, d) | None => true end) (c_fields cd)
+  | _ => true
+  end.
+
 Definition sstricter (c : scase) : bool :=
-  sin_dom c && negb (sin_thm_dom c) &&
+  negb (plan_stable c (entry_plan (sc_env c) (sc_cur c) (sc_entry c))) && negb (snonfinite c) &&
   match smodel c, sc_obs c with
   | Ok _, Raise x => is_te_ve x
   | _, _ => false
@@ -186,7 +202,7 @@ Definition sflags (c : scase) : list bool :=
   let copyraised := match plan with PValue _ => negb (saccepted c) | _ => false end in
   let dom := negb nonfin && cur_valid c && plan_dom plan in
   let thm := dom && entry_dom (sre c) (sc_env c) (sc_cur c) (sc_entry c) in
-  let stricter := dom && negb thm &&
+  let stricter := negb (plan_stable c plan) && negb nonfin &&
                   match m, sc_obs c with Ok _, Raise x => is_te_ve x | _, _ => false end in
   let viol := dom && sspec_fail c in
   let mism := sc_cmp c && negb unm && negb nonfin && negb copyraised && negb stricter &&
@@ -232,3 +248,14 @@ Definition dflags_of (c : dcase) : list bool :=
   [ negb decl && negb (val_nonfinite (dc_doc c)) && negb (dres_equiv m (dc_obs c));
     d; decl;
     d && match m with Ok x => negb (inst_ok (tbl_match (dc_tbl c)) (dc_env c) x) | Raise _ => false end ].
+
+(* ---- default factories: a field declared with `default=<callable>` gets, at every construction, the value
+   the callable returns THEN.  The harness fixes that value per chain; the class environment of a case is
+   env0 with the default of the named (class, field) pairs replaced by it. *)
+From TP Require Export Struct.Defaults.
+Definition set_default (ov : pystr * pystr * pyval) (c : classdef) : classdef :=
+  let '(cn, fn, d) := ov in
+  if pystr_eqb (c_name c) cn then with_default c fn d else c.
+
+Definition override_defaults (e : env) (ovs : list (pystr * pystr * pyval)) : env :=
+  fold_left (fun e' ov => map (set_default ov) e') ovs e.
